@@ -2,6 +2,15 @@
 """Write /verif/seeded/<name>/meta.json for every seeded change from its confirmation.txt."""
 import json, os, re, glob
 NEEDS = {
+ "C01e_truncated_solve_transpose_instead_of_adjoint": "a model with a complex scalar type and genuinely complex basis values: U^T y instead of U^H y in the truncated solve (real scalars are bit-identical)",
+ "C05d_dark_right_hand_sides_dropped_from_jacobian": "all linear coefficients of all right-hand sides at most epsilon in magnitude (data in tiny units: f32 amplitudes below 1.2e-7, f64 below 2.2e-16, or a user epsilon): the Jacobian is zero, the fit stops at the initial guess with Orthogonal",
+ "C06d_weights_applied_twice_when_rhs_equals_basis_count": "non-uniform weights and as many right-hand sides as basis functions (S == M; single rhs: exactly one basis function): two overlapping conditionals weight both D_k and D_k*C",
+ "C08d_nan_epsilon_panics_in_svd_rank": "epsilon(NaN) and an evaluation of the Jacobian: nalgebra's SVD::rank asserts eps >= 0",
+ "C12d_noimprovement_success_and_missing_recheck": "two edits: was_successful() true for NoImprovementPossible + the re-check after fit removed; needs optimizer tolerances below machine precision (with_solver)",
+ "C13d_exact_fit_shortcut_sizes_covariance_by_parameter_count": "a successful fit whose reduced chi2 is exactly 0.0 (data reproduced bit for bit, ResidualsZero): the shortcut builds a P x P covariance",
+ "C14d_band_zero_below_absolute_epsilon": "j_i^T Cov j_i at or below machine epsilon in absolute terms (data of magnitude 1e-6, or order-one data known to 8 digits; f32: noise below 3e-4): the band is 0 at that sample",
+ "C18d_default_epsilon_is_f64_epsilon_for_f32": "f32 models without an epsilon() call and a singular value between 2.2e-16 and 1.19e-7",
+ "C19d_parallel_band_uses_weighted_rows": "two edits: fit_with_statistics forwards PAR, the rayon branch of the band loop takes rows of W*J; needs new_parallel, non-unit weights and confidence_band_radius",
  "C02d_same_point_skip_with_norm_relative_comparison": "badly scaled parameters (|alpha| dominated by one component, e.g. omega ~ 1e6..1e9 next to a phase) and an update that moves only the small component by less than eps*|alpha|: the cache is kept although the model received the new parameters",
  "C03d_jacobian_projector_truncated_at_epsilon": "a full-column-rank W*Phi with some but not all singular values at or below epsilon (user epsilon, f32 default epsilon with a column ~1e-8, tiny weights): the projector in jacobian() shrinks to the kept singular vectors",
  "C04d_unsigned_dof_subtraction_in_jacobian": "more basis functions than samples (N < M), a non-zero initial residual and a build with overflow checks: nrows - ncoefficients panics inside fit",
